@@ -282,6 +282,63 @@ theorem hashIncr_refines {db : DB} (hw : HWF db) {now : Int} {k : Bytes}
       simp [update, Model.hashIncr, hashGetRaw_none hk, hv0, he, Res.err, Spec.hashIncr, hg,
         Spec.er, purge_abs hw.wf.names]
 
+/-- whether `sqlSet1` (the key upsert of `tx.set`) fails depends only on what holds the name -/
+theorem hashSetKey_ok_of_absent {db : DB} {k : Bytes} (now : Int) (h : db.findKey k = none) :
+    ∃ x, hashSetKey db k now = .ok x := by
+  unfold hashSetKey; rw [keyUpsert_new h]; exact ⟨_, rfl⟩
+
+theorem hashSetKey_ok_of_hash {db : DB} {k : Bytes} (now : Int) {r : KeyRow} (h : db.findKey k = some r)
+    (ht : r.ty = THash) : ∃ x, hashSetKey db k now = .ok x := by
+  unfold hashSetKey; rw [keyUpsert_old h ht]; exact ⟨_, rfl⟩
+
+theorem hashSetKey_err_of_other {db : DB} {k : Bytes} (now : Int) {r : KeyRow} (h : db.findKey k = some r)
+    (ht : r.ty ≠ THash) : hashSetKey db k now = .error .keyType := by
+  unfold hashSetKey; exact keyUpsert_other h ht
+
+/-- Float increment of a hash field against the specification (numeric domain as for strings:
+`valueFloat`, `formatFloatDec`; a missing field counts as zero; outside the domain both sides say
+"not decided" and nothing changes). -/
+theorem hashIncrFloat_refines {db : DB} (hw : HWF db) {now : Int} {k : Bytes}
+    (hns : staleKey db now k = false) (f : Bytes) (d : Dyadic) :
+    Refines now (update (fun x => Model.hashIncrFloat x k f d now) db)
+      (Spec.hashIncrFloat (abs now db) k f d) := by
+  unfold Refines
+  have hv0 : valueFloat [] = .val .zero := rfl
+  have hz : Dyadic.zero + d = d := rfl
+  rcases hholder hw.wf now k with ⟨h, hg, hk⟩ | ⟨_, h, hl, _, _⟩ | ⟨r, h, _, ht, hg, hk⟩ |
+    ⟨r, w, h, _, ht, hg, hv, hk⟩
+  · cases hf : formatFloatDec d with
+    | none =>
+      obtain ⟨x, hx⟩ := hashSetKey_ok_of_absent now h
+      simp [update, Model.hashIncrFloat, hashGetRaw_none hk, hv0, hz, hf, hx, Res.err, Spec.hashIncrFloat,
+        hg, Spec.skip, purge_abs hw.wf.names]
+    | some txt =>
+      obtain ⟨db2, he, hw2, ha⟩ := setTx_absent hw h f txt now
+      have hm : Model.hashIncrFloat db k f d now = ⟨.ok (.score (.fin d)), db2⟩ := by
+        simp only [Model.hashIncrFloat, hashGetRaw_none hk, Option.getD_none, hv0, hz, hf, he, Res.ok]
+      simp only [update, hm, Spec.hashIncrFloat, hg, hf, Spec.ok]
+      exact ⟨trivial, by rw [← ha, purge_abs hw2.wf.names]⟩
+  · exact (HHolder.not_stale hns h hl).elim
+  · have hraw := hashGetRaw_some hk f
+    rw [← aget_hview hw.pairs] at hraw
+    simp only [update, Model.hashIncrFloat, Spec.hashIncrFloat, hg, hraw]
+    cases hvf : valueFloat ((aget (hview db.hashes r.id) f).getD []) with
+    | invalid => simp [Res.err, Spec.er, purge_abs hw.wf.names]
+    | unknown => simp [Res.err, Spec.skip, purge_abs hw.wf.names]
+    | val x =>
+      cases hf : formatFloatDec (x + d) with
+      | none =>
+        obtain ⟨y, hy⟩ := hashSetKey_ok_of_hash now h ht
+        simp [hf, hy, Res.err, Spec.skip, purge_abs hw.wf.names]
+      | some txt =>
+        obtain ⟨db2, he, _, ha⟩ := setTx_present hw h ht f txt now
+        simp [hf, he, Res.ok, Spec.ok, ha]
+  · have he := fun v => hashSetTx_other (f := f) (v := v) (now := now) h ht
+    have hu := hashSetKey_err_of_other now h ht
+    cases hf : formatFloatDec d <;> cases w <;> first | exact absurd rfl (hv _) |
+      simp [update, Model.hashIncrFloat, hashGetRaw_none hk, hv0, hz, hf, hu, he, Res.err,
+        Spec.hashIncrFloat, hg, Spec.er, purge_abs hw.wf.names]
+
 /-! ### multi-set -/
 
 theorem put_self {s : State} (hs : Sorted s) {k : Bytes} {e : Entry} (h : get s k = some e) :
@@ -467,6 +524,20 @@ theorem hashIncr_hwf {db : DB} (hw : HWF db) (k f : Bytes) (d now : Int) :
     cases he : hashSetTx db k f (itoa (wrap64 (n + d))) now with
     | error e => exact hw
     | ok d' => exact hashSetTx_hwf hw k f _ now d' he
+
+theorem hashIncrFloat_hwf {db : DB} (hw : HWF db) (k f : Bytes) (d : Dyadic) (now : Int) :
+    HWF (Model.hashIncrFloat db k f d now).db := by
+  unfold Model.hashIncrFloat
+  simp only
+  split
+  · exact hw
+  · exact hw
+  · split
+    · split <;> exact hw
+    · rename_i txt _
+      cases he : hashSetTx db k f txt now with
+      | error e => exact hw
+      | ok d' => exact hashSetTx_hwf hw k f _ now d' he
 
 theorem loop_hwf (k : Bytes) (now : Int) : ∀ (items : List (Bytes × Bytes)) (db : DB), HWF db →
     HWF (hashSetManyLoop db k now items).2
